@@ -1,7 +1,8 @@
 ----------------------------- MODULE NotifTrace -----------------------------
 (* Trace validation for NotifStream: recorded schedules of a real RF=1 leader controller     *)
 (* (WriteBlock, GetNotifications with / without StartOffsetExclusive with the dispatcher      *)
-(* parked in the callback, the real trimmer run at chosen instants, controller restarts).     *)
+(* parked in the callback, the real trimmer run at chosen instants, controller restarts,      *)
+(* elections of a replica whose DB lags its log).                                             *)
 (* One line per step: the step and its argument are bound from the line; the number of        *)
 (* committed offsets, the notification batches stored in the DB, the offset of the empty      *)
 (* first batch, the batch the dispatcher offers next, the batch delivered and the last offset *)
@@ -33,7 +34,9 @@ TNext ==
           /\ (ns.pos # NoStart => e.arg = ResumeArg(ns))
           /\ LET r == DoSubscribe(ns, e.arg) IN r.dummy = e.dummy /\ ns' = r.s /\ ObsOK(ns', e)
        \/ e.a = "Send" /\ CanSend(ns) /\ e.arg = ns.buf[1] /\ ns' = DoSend(ns) /\ ObsOK(ns', e)
-       \/ e.a \in {"Disconnect", "Restart"} /\ ns' = DoDisconnect(ns) /\ ObsOK(ns', e)
+       \/ e.a = "Elect" /\ e.arg \in 1..ns.n /\ ns' = DoElect(ns, e.arg) /\ ObsOK(ns', e)
+       \/ e.a = "Disconnect" /\ ns' = DoDisconnect(ns) /\ ObsOK(ns', e)
+       \/ e.a = "Restart" /\ ns' = DoRestart(ns) /\ ObsOK(ns', e)
 
 TraceSpec == TInit /\ [][TNext]_tvars
 
